@@ -1,7 +1,7 @@
 (* C16 at source level — the terms translated from src/element.rs (Generated/ElementRs.v), run in the
    RustElem evaluator, compute the model's construction operations for every input.
    Only statements; every proof is `exact <lemma>`. *)
-From XSG.Model Require Import Strings Necessity Element RustElem.
+From XSG.Model Require Import Convert Strings Necessity Element RustElem.
 From XSG.Generated Require Import ElementRs.
 From XSG.Proofs Require Import ElementProofs ElementRsProofs.
 From Coq Require Import String List.
@@ -88,6 +88,18 @@ Theorem C16_source_merge_attr : forall e l,
   = Some (VElem (merge_attr e l), VElem (merge_attr e l)).
 Proof. exact merge_attr_rs_correct. Qed.
 
+(* two helpers of the renderer: which children are rendered as plain String fields, and which
+   attribute names keep their prefix *)
+Theorem C16_source_contains_only_text : forall e,
+  run_fn no_call contains_only_text_rs (VElem e) VUnit = Some (VBool (contains_only_text e), VElem e).
+Proof. exact contains_only_text_rs_correct. Qed.
+
+Theorem C16_source_starts_with_xmlns : forall x,
+  run_fn no_call starts_with_xmlns_rs (VName x) VUnit = Some (VBool (Convert.starts_with_xmlns x), VName x).
+Proof. exact starts_with_xmlns_rs_correct. Qed.
+
+Print Assumptions C16_source_contains_only_text.
+Print Assumptions C16_source_starts_with_xmlns.
 Print Assumptions C16_source_increment.
 Print Assumptions C16_source_merge_attr.
 Print Assumptions C16_source_add_unique_children.
